@@ -76,7 +76,9 @@ def draw_gmm(n, loc, scale, pvals, random_state=None) -> Tuple[np.ndarray, np.nd
             X += [generator.normal(loc[k], np.sqrt(scale[k]), size=(n,))]  # scale holds variances, normal expects a standard deviation
     else:
         for k in range(K):
-            if np.any(np.linalg.eigvals(scale[k]) < 0):
+            # Singular covariances (e.g. perfectly correlated variables) may get eigenvalues like -1e-17 by rounding
+            eigenvalues = np.real(np.linalg.eigvals(scale[k]))
+            if np.any(eigenvalues < -1e-8 * max(1, np.abs(eigenvalues).max())):
                 raise ValueError(f"The {k}-th covariance is not positive semi-definite")
             if np.all(scale[k] == 0):
                 raise ValueError(f"The {k}-th covariance matrix contains only zeroes")
